@@ -42,7 +42,11 @@ SPEC = {
         "Sema.C11.C11_no_scrapped", "Sema.C11.C11_checked_before_handout", "Sema.C11.C11_dirty_is_scrapped",
         "Sema.C11.C11_failed_dropped", "Sema.C11.C11_replaced_dropped",
         "Sema.C11.C11_released", "Sema.C11.C11_evict_harmless", "Sema.C11.C11_evicted_is_rebuilt",
+        # "a later transaction rebuilds it": the access that finds no entry constructs a fresh object and runs its callback on it
+        "Sema.C11.C11_rebuilt_fresh", "Sema.C11.C11_rebuilt_kept", "Sema.C11.C11_rebuilt_frame", "Sema.C11.C11_rebuilt_own",
         "Sema.C11.C11_progress", "Sema.C11.C11_no_deadlock",
+        # the hypothesis dbLock of C11_progress is forced: AB/BA deadlock of the REPAIRED model with two concurrent writers
+        "Sema.C11.C11_deadlock_witness_without_dblock",
         "Sema.C11.C11_deadlock_witness_pinned", "Sema.C11.C11_deadlock_witness_reorder_failing_reader",
         "Sema.C11.C11_deadlock_witness_reorder_commit", "Sema.C11.C11_mutex_witness_pinned", "Sema.C11.C11_leak_witness_two_fixes",
     ],
@@ -54,7 +58,8 @@ SPEC = {
     ],
     "assumptions": [
         "Commit is called once per transaction, after all goroutines of the transaction have returned from With (shard.go joins the dispatch goroutines first)",
-        "C11_progress: at most one transaction is inside its writing phase at a time (bbolt's single read-write transaction; flag dbLock of the model)",
+        "C11_progress: at most one transaction is inside its writing phase at a time (bbolt's single read-write transaction; flag dbLock of the model). The hypothesis is forced: C11_deadlock_witness_without_dblock is the recorded negation without it (two concurrent writers, caches in opposite order, both parked at xObjLock); the same workload (`max=1 db=0 wl=w0,w1/w1,w0`) is driven through the real Manager in the thorough tier",
+        "'a later transaction rebuilds it from committed storage': the model has no storage. Proved: the access that finds no entry constructs a FRESH object (C11_rebuilt_fresh), keeps it through the new-cache branch under any interleaving / eviction (C11_rebuilt_kept, C11_rebuilt_frame, C11_rebuilt_own) and runs its callback on it. That createFn reads the committed bucket is bbolt + the constructors (C08)",
     ],
 }
 
